@@ -1,2 +1,120 @@
-From AG Require Import Str.
-Example placeholder : 1 = 1. Proof. reflexivity. Qed.
+(** C07 — parse and split extract exactly the delimited text. *)
+From Coq Require Import List NArith ZArith Bool Lia.
+From AG Require Import Str F64 Value Json Expr Ops Pipeline Str_proofs Match_proofs Split_proofs Ops_proofs.
+Import ListNotations.
+Open Scope N_scope.
+
+(** a match decomposes the text into the literal segments (up to ASCII case / whitespace) with the
+    captured texts between them: substituting the captures back into the pattern reproduces the matched part *)
+Theorem C07_wild_roundtrip : forall s0 rest anch t caps,
+  find_match s0 rest anch t = Some caps ->
+  exists pre m t', t = pre ++ m ++ t' /\ seg_eq s0 m = true /\ segs_match rest anch t' caps.
+Proof. exact find_match_sound. Qed.
+Print Assumptions C07_wild_roundtrip.
+
+(** ... and whenever such a decomposition exists the line matches *)
+Theorem C07_wild_complete : forall s0 rest anch t pre m t' caps,
+  t = pre ++ m ++ t' -> seg_eq s0 m = true -> segs_match rest anch t' caps ->
+  exists caps', find_match s0 rest anch t = Some caps'.
+Proof. exact find_match_complete. Qed.
+Print Assumptions C07_wild_complete.
+
+(** leftmost start, shortest captures *)
+Theorem C07_wild_leftmost : forall s0 rest anch t caps,
+  find_match s0 rest anch t = Some caps ->
+  exists pre m t', t = pre ++ m ++ t' /\ seg_eq s0 m = true /\ segs_match rest anch t' caps /\
+    forall pre2 m2 t2 caps2, t = pre2 ++ m2 ++ t2 -> seg_eq s0 m2 = true -> segs_match rest anch t2 caps2 ->
+      (length pre <= length pre2)%nat.
+Proof. exact find_match_leftmost. Qed.
+Print Assumptions C07_wild_leftmost.
+
+Theorem C07_wild_lazy : forall s rest anch t g caps,
+  match_segs (s :: rest) anch t = Some (g :: caps) ->
+  forall g2 m2 t2 caps2, t = g2 ++ m2 ++ t2 -> no_nl g2 -> seg_eq s m2 = true -> segs_match rest anch t2 caps2 ->
+    (length g <= length g2)%nat.
+Proof. exact match_segs_lazy. Qed.
+Print Assumptions C07_wild_lazy.
+
+(** one capture per wildcard; the field count is checked at compile time *)
+Theorem C07_capture_count : forall pat t caps,
+  kw_captures KWild pat t = Some caps -> length caps = count_stars (unescape_quotes pat).
+Proof. exact captures_count. Qed.
+Print Assumptions C07_capture_count.
+
+Theorem C07_field_count_checked : forall pat fields from nd nc,
+  stage_ok (SParse pat fields from nd nc) = true -> count_stars pat = length fields.
+Proof. exact parse_field_count_checked. Qed.
+Print Assumptions C07_field_count_checked.
+
+(** fields are bound in order, as text under noconvert *)
+Theorem C07_binds : forall pat fields from nodrop noconvert r inp caps,
+  get_input r from = Ok inp -> kw_captures KWild pat (trim inp) = Some caps ->
+  length caps = length fields -> NoDup fields ->
+  exists r', parse_op pat fields from nodrop noconvert r = Ok (Some r') /\
+    forall i f c, nth_error fields i = Some f -> nth_error caps i = Some c ->
+      get f (rdata r') = Some (if noconvert then VStr c else from_string c).
+Proof. exact parse_match_binds. Qed.
+Print Assumptions C07_binds.
+
+(** non-matching lines are dropped, or kept with the missing fields set to None under nodrop *)
+Theorem C07_drop : forall pat fields from noconvert r inp,
+  get_input r from = Ok inp -> kw_captures KWild pat (trim inp) = None ->
+  parse_op pat fields from false noconvert r = Ok None.
+Proof. exact parse_no_match_drop. Qed.
+Print Assumptions C07_drop.
+
+Theorem C07_nodrop_keeps : forall pat fields from noconvert r inp,
+  get_input r from = Ok inp -> kw_captures KWild pat (trim inp) = None ->
+  exists r', parse_op pat fields from true noconvert r = Ok (Some r') /\
+    rraw r' = rraw r /\
+    (forall k v, get k (rdata r) = Some v -> get k (rdata r') = Some v) /\
+    (forall f, In f fields -> get f (rdata r) = None -> get f (rdata r') = Some VNone) /\
+    (forall k, ~ In k fields -> get k (rdata r') = get k (rdata r)).
+Proof. exact parse_no_match_nodrop. Qed.
+Print Assumptions C07_nodrop_keeps.
+
+(** `from` reads another field instead of the line *)
+Theorem C07_from_field : forall r e,
+  get_input r (Some e) = eval_str e (rdata r) /\ get_input r None = Ok (rraw r).
+Proof. intros; split; [apply parse_from_field | apply parse_from_line]. Qed.
+Print Assumptions C07_from_field.
+
+(** split terminates for every non-empty separator (an empty one is rejected at compile time) *)
+Theorem C07_split_terminates : forall input sep, sep <> [] ->
+  exists l, split_with_delimiters input sep = SplitOk l.
+Proof. exact split_terminates. Qed.
+Print Assumptions C07_split_terminates.
+
+Theorem C07_split_empty_separator_rejected : forall from out, stage_ok (SSplit [] from out) = false.
+Proof. reflexivity. Qed.
+Print Assumptions C07_split_empty_separator_rejected.
+
+(** the tokens are non-empty and trimmed; without quotes they are exactly the pieces between separators *)
+Theorem C07_split_tokens : forall input sep l,
+  split_with_delimiters input sep = SplitOk l -> Forall (fun t => t <> [] /\ trim t = t) l.
+Proof. exact split_tokens_trimmed. Qed.
+Print Assumptions C07_split_tokens.
+
+Theorem C07_split_pieces : forall pieces c,
+  c <> 34 -> c <> 39 ->
+  Forall (fun p => has_quote p = false /\ has_char c p = false) pieces ->
+  split_with_delimiters (join_with c pieces) [c] = SplitOk (nonempty_trimmed pieces).
+Proof. exact split_no_quotes. Qed.
+Print Assumptions C07_split_pieces.
+
+(** a quoted token is kept whole, without its quotes *)
+Theorem C07_split_quoted : forall q body rest sep,
+  (q = 34 \/ q = 39) -> sep <> [] ->
+  has_char q body = false -> has_char 92 body = false ->
+  exists l, split_with_delimiters rest sep = SplitOk l /\
+    split_with_delimiters (q :: body ++ q :: rest) sep =
+    SplitOk (match trim body with [] => l | t => t :: l end).
+Proof. exact split_quoted_token. Qed.
+Print Assumptions C07_split_quoted.
+
+(** parse regex binds the named captures of the user's regex: the regex crate is not modelled *)
+Definition C07_parse_regex_is_validated_only : Prop := True.
+
+Example C07_example :
+  kw_captures KWild (lit "GET * HTTP/*") (lit "x get /a b http/1.1 GET /c HTTP/2") = Some [lit "/a b"; lit "1.1 GET /c HTTP/2"].
+Proof. vm_compute. reflexivity. Qed.
